@@ -199,6 +199,41 @@ def build_ops(ck, tmp, n):
         with open(pr, "wb") as fh:
             fh.write(rr[1])
         ops.append({"kind": "boot", "inputs": [pr], "envelope_address": 0x0E1E9340, "uci": 0x0E1E9340})
+    # ALIASED descriptions: a dependency defined once and referenced three times (digest by envelope, size by envelope, integrated
+    # dependency) — the YAML rendering holds ONE shared object (anchor / aliases), the JSON rendering three copies; any in-place
+    # edit of the description while it is read shows as a difference between the two renderings
+    payf = os.path.join(tmp, "alias_app.bin")
+    with open(payf, "wb") as fh:
+        fh.write(bytes(range(97)))
+    dep = {"SUIT_Envelope_Tagged": {
+        "suit-authentication-wrapper": {"SuitDigest": {"suit-digest-algorithm-id": "cose-alg-sha-256"}},
+        "suit-manifest": {"suit-manifest-version": 1, "suit-manifest-sequence-number": 1, "suit-common": {"suit-components": [["M", 2]]},
+                          "suit-install": [{"suit-directive-override-parameters": {"suit-parameter-uri": "#app.bin"}}, {"suit-directive-fetch": []}]},
+        "suit-integrated-payloads": {"#app.bin": payf}}}
+    for order in ("manifest-first", "dependencies-first"):
+        man = {"suit-manifest-version": 1, "suit-manifest-sequence-number": 2, "suit-common": {"suit-components": [["C", 0]]},
+               "suit-install": [{"suit-directive-override-parameters": {
+                   "suit-parameter-uri": "#app.suit",
+                   "suit-parameter-image-digest": {"suit-digest-algorithm-id": "cose-alg-sha-256", "suit-digest-bytes": {"envelope": dep}},
+                   "suit-parameter-image-size": {"envelope": dep}}}, {"suit-directive-fetch": []}]}
+        top = {"suit-authentication-wrapper": {"SuitDigest": {"suit-digest-algorithm-id": "cose-alg-sha-256"}}}
+        if order == "manifest-first":
+            top["suit-manifest"] = man
+            top["suit-integrated-dependencies"] = {"#app.suit": dep}
+        else:
+            top["suit-integrated-dependencies"] = {"#app.suit": dep}
+            top["suit-manifest"] = man
+        adesc = {"SUIT_Envelope_Tagged": top}
+        ra = interp.run_impl(interp.impl_create, json.loads(json.dumps(adesc)))
+        if ra[0] != "ok":
+            continue
+        pj, py = os.path.join(tmp, f"alias_{order}.json"), os.path.join(tmp, f"alias_{order}.yaml")
+        with open(pj, "w") as fh:
+            json.dump(adesc, fh)
+        with open(py, "w") as fh:
+            _y.dump(adesc, fh, sort_keys=False)             # the shared `dep` object is written once, with an anchor
+        ops.append({"kind": "create", "input": pj, "twin": len(ops) + 1})
+        ops.append({"kind": "create", "input": py, "twin": len(ops) - 1})
     # REJECTED inputs are part of a history too: envelopes damaged deep inside nested try-each / run-sequence arguments are parsed
     # (and rejected) before the intact one is parsed — state left behind on an error path shows in the later parse
     def nest(depth, leaf):
